@@ -1040,7 +1040,7 @@ def exIdx : Index :=
   { data := [⟨[1], 0, 0, 40, 0⟩, ⟨[1], 1, 0, 40, 0⟩, ⟨[2], 1, 40, 40, 0⟩], tree := [],
     packs := [[0xaa], [0xab]], final := true, ids := [[0xee]] }
 
-def exMI : MasterIndex := ⟨exIdx, []⟩
+def exMI : MasterIndex := ⟨exIdx, [], []⟩
 
 def exH : Handle := ⟨.data, [1]⟩
 def exSet : ASet := (ASet.new exMI).insert exMI exH
